@@ -37,7 +37,12 @@ instead `Inv` is part of the relation and is proved preserved (`inv_step` for op
 ## The coupling relation (`GCoupled`) and its preservation (`GCoupled.step`, `GCoupled.run`)
 
 For every set of this arena that is alive in `d`: the arena exists, the set object is allocated,
-undestructed, traced, and its slot list is exactly `table.map img`.  A set whose object is
+undestructed, traced, and its slot list is exactly `table.map img` (`GCore.sets`); conversely a set
+of this arena whose object is allocated and undestructed is alive in `d` (`GCoupled.live`, with
+`bound` / `Mono`: ids are never reused, a destructed object never comes back) — together
+`GCoupled.alive_iff`; hence a set object the client can reach belongs to an alive set
+(`GCoupled.alive_of_accessible`), which is what lets the property theorems dispense with any
+hypothesis about the slot-table state.  A set whose object is
 destructed by a collection (or by the arena drop) is destroyed by `sync` in the same step, so the
 relation never speaks about a destructed object.  The key frame fact is `step_rigid`: every op but a
 store into `x` leaves the slot list of `x` alone for as long as `x` is allocated and undestructed —
@@ -49,8 +54,17 @@ reachable or not, whatever its colour (`micros_back`: backwards along collector 
   (`envNewSet`/`envStash`/`envDestroy`, and `clone`/`dropHandle` of their handles).  The theorems
   hold for the modelled arena whatever the environment does, hence for each arena in turn.
 * Handle operations are atomic and happen between collector-model ops.  A handle dropped *during*
-  a collection call (by the destructor of an object the sweep destructs) is the same history with
-  the call split at that point into two oracle-driven `collect` ops.
+  a collection call (by the destructor of an object `i0` the sweep destructs) is represented by the
+  history with the call split after that sweep step into two oracle-driven `collect` ops; that the
+  clearing, which really happens in the middle of the sweep step, commutes with the step is
+  `clear_commutes_sweepOne` (proved, for `i0` ≠ the set object; if the set object itself is being
+  destructed the set is gone and nothing is cleared).  Not covered: the debt arithmetic of the
+  split call (oracle-driven ops take no debt decisions) — irrelevant to the theorems here.
+* **No dynamic tie of its own.**  `dynmodel` / `harness_dynroots` run the DynRoots model only, and
+  the collector correspondence runs `GcArena.Op`s only; `GSys` is not executed against the crate.
+  Its faithfulness to `src/dynamic_roots.rs` rests on reading (the table above, line by line against
+  `stash` / `Drop` / `Clone` / `fetch` / `Collect for Inner`) plus the two component ties: the
+  slot-table differential (C14) and the collector correspondence (C01–C11).
 * Trusted as before: `ref_count` does not overflow; `Weak::as_ptr` of a dropped `Rc` never equals
   `Rc::as_ptr` of a live one (set ids are never reused).
 -/
@@ -195,6 +209,73 @@ theorem inv_reslot {a : Arena} (h : Inv a) {x : Nat} {o : Obj} (ho : a.ctx.heap.
     h.finMark, h.rootCb, h.markedMark⟩
 
 
+/-! ### No resurrection: an id below the heap size never (re)gains an undestructed object -/
+
+/-- The heap does not shrink, and an object that is allocated and undestructed afterwards at an id
+that existed before was allocated and undestructed before. -/
+def Mono (c c' : Ctx) : Prop :=
+  c.heap.size ≤ c'.heap.size ∧
+  ∀ x o', x < c.heap.size → c'.heap.get x = some o' → o'.live = true →
+    ∃ o, c.heap.get x = some o ∧ o.live = true
+
+theorem Mono.refl (c : Ctx) : Mono c c := ⟨Nat.le_refl _, fun _ o' _ h hl => ⟨o', h, hl⟩⟩
+
+theorem Mono.trans {a b c : Ctx} (h1 : Mono a b) (h2 : Mono b c) : Mono a c := by
+  refine ⟨Nat.le_trans h1.1 h2.1, fun x o2 hx ho2 hl2 => ?_⟩
+  obtain ⟨o1, ho1, hl1⟩ := h2.2 x o2 (Nat.lt_of_lt_of_le hx h1.1) ho2 hl2
+  exact h1.2 x o1 hx ho1 hl1
+
+theorem mono_of_quiet {c c' : Ctx} (q : Quiet c c') : Mono c c' := by
+  refine ⟨q.sizeLe, fun x o' hx ho' hl => ?_⟩
+  rcases q.noNew x o' ho' with ⟨o, ho⟩ | ⟨hge, _⟩
+  · obtain ⟨o2, ho2, hl2⟩ := q.keep x o ho
+    rw [ho'] at ho2; cases ho2
+    exact ⟨o, ho, by rw [← hl2]; exact hl⟩
+  · omega
+
+theorem mono_of_back {c c' : Ctx} (hb : ∀ x, Back x c c') (hs : c'.heap.size = c.heap.size) :
+    Mono c c' := by
+  refine ⟨by omega, fun x o' _ ho' hl => ?_⟩
+  obtain ⟨o, ho, hl0, _⟩ := hb x o' ho' hl
+  exact ⟨o, ho, hl0⟩
+
+theorem micro_size' {c c' : Ctx} {root} (m : Micro) (hs : c.micro root m = some c') :
+    c'.heap.size = c.heap.size := by
+  cases m <;> simp only [Ctx.micro] at hs <;> split at hs <;> cases hs <;>
+    first | rfl | exact Ctx.markOne_size _ _ _ | exact Ctx.sweepOne_size _
+
+theorem micros_size' {root} (ms : List Micro) : ∀ {c c' : Ctx}, c.micros root ms = some c' →
+    c'.heap.size = c.heap.size := by
+  induction ms with
+  | nil => intro c c' hs; simp only [Ctx.micros] at hs; cases hs; rfl
+  | cons m ms ih =>
+    intro c c' hs
+    simp only [Ctx.micros] at hs
+    cases hm : c.micro root m with
+    | none => rw [hm] at hs; cases hs
+    | some c1 => rw [hm] at hs; exact (ih hs).trans (micro_size' m hm)
+
+/-- Every op except `dropArena`. -/
+theorem step_mono {a : Arena} (h : Inv a) (op : Op) (hda : op ≠ .dropArena) :
+    Mono a.ctx (a.step op).1.ctx := by
+  cases hop : op.isMutator with
+  | true => exact mono_of_quiet (step_quiet h op hop)
+  | false =>
+    cases op with
+    | collect m k f o =>
+      obtain ⟨ms, hms, _⟩ := (step_collect_rel h m k f o).reach
+      exact mono_of_back (micros_back ms hms) (micros_size' ms hms)
+    | dropArena => exact absurd rfl hda
+    | _ => simp [Op.isMutator] at hop
+
+theorem mono_setSlots {c : Ctx} {x : Nat} {o : Obj} (ho : c.heap.get x = some o) (ss : List Slot) :
+    Mono c (c.setObj x { o with slots := ss }) := by
+  refine ⟨by rw [Ctx.setObj_size ho]; exact Nat.le_refl _, fun y o' _ ho' hl => ?_⟩
+  rw [Ctx.setObj_get] at ho'
+  by_cases hy : y = x
+  · subst hy; simp at ho'; subst ho'; exact ⟨o, ho, hl⟩
+  · simp [hy] at ho'; exact ⟨o', ho', hl⟩
+
 /-! ## 3. The general coupled system -/
 
 /-- What `Collect for Slot` reports, as a slot of the collector model. -/
@@ -338,7 +419,7 @@ that is alive in the DynRoots state** the arena exists and the set object is all
 undestructed, traced, and its slot list is *exactly* the image of the slot table: slot `i` is
 `some (strong r)` if table slot `i` is `Occupied { root = r, .. }`, `none` if it is `Vacant` — same
 length, no capacity.  Nothing is said about where the set object is referenced from. -/
-structure GCoupled (S : GSys) : Prop where
+structure GCore (S : GSys) : Prop where
   dyn : S.d = DynRoots.run State.init S.dops
   inv : S.a.alive = true → Inv S.a
   len : S.loc.length = S.d.sets.length
@@ -347,7 +428,7 @@ structure GCoupled (S : GSys) : Prop where
   distinct : ∀ (s s' x : Nat) (rs rs' : RootSet), S.loc[s]? = some (some x) →
     S.loc[s']? = some (some x) → S.d.liveSet s = some rs → S.d.liveSet s' = some rs' → s = s'
 
-theorem GCoupled.init (n : Nat) : GCoupled (GSys.init n) :=
+theorem GCore.init (n : Nat) : GCore (GSys.init n) :=
   ⟨rfl, fun _ => inv_init n, rfl, by simp [GSys.init], by simp [GSys.init]⟩
 
 /-! ### list / table helpers -/
@@ -562,15 +643,17 @@ theorem stashArena_spec {a : Arena} (hinv : Inv a) (hcb : a.cb ≠ none) {x r id
       ((if idx < ss.length then ss else ss ++ [none]).set idx (some (.strong r))) ∧
     (∀ y, y ≠ x → KeepAt y a.ctx (stashArena a x r idx).ctx) ∧
     (stashArena a x r idx).root = a.root ∧ (stashArena a x r idx).cb = a.cb ∧
-    (stashArena a x r idx).temps = a.temps ∧ (stashArena a x r idx).marked = false := by
+    (stashArena a x r idx).temps = a.temps ∧ (stashArena a x r idx).marked = false ∧
+    Mono a.ctx (stashArena a x r idx).ctx := by
   have halive := hinv.alive
   -- 1. the barrier
   have e1 := step_barrier_bb halive hcb hhx hhr
   have inv1 : Inv (a.step (.barrier (.bb x (some r)))).1 :=
     inv_step hinv _ (by rw [e1]; exact halive)
+  have m1 : Mono a.ctx (a.step (.barrier (.bb x (some r)))).1.ctx := step_mono hinv _ (by intro e; cases e)
   unfold stashArena
   simp only
-  generalize h1 : (a.step (.barrier (.bb x (some r)))).1 = a1 at e1 inv1
+  generalize h1 : (a.step (.barrier (.bb x (some r)))).1 = a1 at e1 inv1 m1
   have c1 : a1.ctx = a.ctx.backwardBarrier x (some r) := by rw [e1]
   have r1 : a1.root = a.root := by rw [e1]
   have t1 : a1.temps = a.temps := by rw [e1]
@@ -584,19 +667,20 @@ theorem stashArena_spec {a : Arena} (hinv : Inv a) (hcb : a.cb ≠ none) {x r id
   have step2 : ∃ a2 : Arena, (if idx < o1.slots.length then a1 else reslot a1 x (o1.slots ++ [none])) = a2 ∧
       Inv a2 ∧ IsSetObj a2 x (if idx < ss.length then ss else ss ++ [none]) ∧
       (∀ y, y ≠ x → KeepAt y a1.ctx a2.ctx) ∧ a2.root = a1.root ∧ a2.temps = a1.temps ∧
-      a2.cb = a1.cb ∧ a2.cover = a1.cover ∧ a2.alive = a1.alive := by
+      a2.cb = a1.cb ∧ a2.cover = a1.cover ∧ a2.alive = a1.alive ∧ Mono a1.ctx a2.ctx := by
     by_cases hlt : idx < ss.length
     · have hlt' : idx < o1.slots.length := by rw [hs1]; exact hlt
-      refine ⟨a1, by simp [hlt'], inv1, ?_, fun y _ => KeepAt.refl y _, rfl, rfl, rfl, rfl, rfl⟩
+      refine ⟨a1, by simp [hlt'], inv1, ?_, fun y _ => KeepAt.refl y _, rfl, rfl, rfl, rfl, rfl, Mono.refl _⟩
       simp only [hlt, if_true]; exact ⟨o1, ho1, hl1, hn1, hs1⟩
     · have hlt' : ¬ idx < o1.slots.length := by rw [hs1]; exact hlt
       obtain ⟨f1, f2, f3, f4, _, f6⟩ := reslot_fields a1 x (o1.slots ++ [none])
       refine ⟨_, by simp [hlt'], inv_reslot inv1 ho1 hl1 (fun q hq => by simpa using hq), ?_,
-        fun y hy => reslot_keepAt a1 x _ hy, f1, f2, f3, f4, f6⟩
+        fun y hy => reslot_keepAt a1 x _ hy, f1, f2, f3, f4, f6,
+        by rw [reslot_eq ho1]; exact mono_setSlots ho1 _⟩
       simp only [hlt, if_false]
       refine ⟨{ o1 with slots := o1.slots ++ [none] }, ?_, hl1, hn1, by simp [hs1]⟩
       rw [reslot_eq ho1]; simp
-  obtain ⟨a2, ha2, inv2, x2, k2, r2, t2, cb2, cov2, al2⟩ := step2
+  obtain ⟨a2, ha2, inv2, x2, k2, r2, t2, cb2, cov2, al2, m2⟩ := step2
   rw [ha2]
   -- 3. the store
   obtain ⟨o2, ho2, hl2, hn2, hs2⟩ := x2
@@ -611,7 +695,9 @@ theorem stashArena_spec {a : Arena} (hinv : Inv a) (hcb : a.cb ≠ none) {x r id
     ho2 (by rw [hs2]; exact hlen) hn2 (by simp [Arena.coverOK, cov2, cov1])
   have inv3 : Inv (a2.step (.store .raw x idx (some (.strong r)))).1 :=
     inv_step inv2 _ (by rw [e3]; exact inv2.alive)
-  refine ⟨inv3, ?_, ?_, ?_, ?_, ?_, ?_⟩
+  have m3 : Mono a2.ctx (a2.step (.store .raw x idx (some (.strong r)))).1.ctx :=
+    step_mono inv2 _ (by intro e; cases e)
+  refine ⟨inv3, ?_, ?_, ?_, ?_, ?_, ?_, (m1.trans m2).trans m3⟩
   · rw [e3]
     refine ⟨{ o2 with slots := o2.slots.set idx (some (.strong r)) }, ?_, hl2, hn2, by simp [hs2]⟩
     show (Arena.setSlot a2.ctx x idx _).heap.get x = _
@@ -646,7 +732,7 @@ theorem clearArena_spec {a : Arena} (hinv : Inv a) {x i : Nat} {ss : List Slot} 
 
 /-! ### every coupled operation preserves the relation -/
 
-theorem GCoupled.doD_run {S : GSys} (hc : GCoupled S) (op : DynRoots.Op) :
+theorem GCore.doD_run {S : GSys} (hc : GCore S) (op : DynRoots.Op) :
     DynRoots.next S.d op = DynRoots.run State.init (S.dops ++ [op]) := by
   rw [dyn_run_snoc, ← hc.dyn]
 
@@ -658,8 +744,8 @@ theorem liveSet_back {d d' : State} (hT : SameTables d d') {s : Nat} {rs' : Root
   exact ⟨rs, DynRoots.liveSet_eq_some.2 ⟨hrs, by rw [← hal]; exact ha⟩, map_img_ext hlen himg⟩
 
 /-- A DynRoots op that changes no table image, with the arena as it is. -/
-theorem GCoupled.doD_same {S : GSys} (hc : GCoupled S) (op : DynRoots.Op)
-    (hT : SameTables S.d (DynRoots.next S.d op)) : GCoupled (S.doD op) := by
+theorem GCore.doD_same {S : GSys} (hc : GCore S) (op : DynRoots.Op)
+    (hT : SameTables S.d (DynRoots.next S.d op)) : GCore (S.doD op) := by
   refine ⟨hc.doD_run op, hc.inv, hc.len.trans hT.1.symm, ?_, ?_⟩
   · intro s x rs' hl hs
     obtain ⟨rs, hrs, hm⟩ := liveSet_back hT hs
@@ -670,16 +756,16 @@ theorem GCoupled.doD_same {S : GSys} (hc : GCoupled S) (op : DynRoots.Op)
     exact hc.distinct s s' x r1 r2 hl hl' h1 h2
 
 /-- Replacing the arena by one in which every alive set of this arena still has its object. -/
-theorem GCoupled.withArena {S : GSys} (hc : GCoupled S) {a' : Arena} (hinv : a'.alive = true → Inv a')
+theorem GCore.withArena {S : GSys} (hc : GCore S) {a' : Arena} (hinv : a'.alive = true → Inv a')
     (hobj : ∀ (s x : Nat) (rs : RootSet), S.loc[s]? = some (some x) → S.d.liveSet s = some rs →
       a'.alive = true ∧ IsSetObj a' x (rs.slots.slots.map img)) :
-    GCoupled ({ S with a := a' } : GSys) :=
+    GCore ({ S with a := a' } : GSys) :=
   ⟨hc.dyn, hinv, hc.len, hobj, hc.distinct⟩
 
 /-- A mutator op that is not a `store` into a set object. -/
-theorem GCoupled.mutStep {S : GSys} (hc : GCoupled S) (op : Op) (hop : op.isMutator = true)
+theorem GCore.mutStep {S : GSys} (hc : GCore S) (op : Op) (hop : op.isMutator = true)
     (hst : ∀ (s x : Nat), S.loc[s]? = some (some x) → ∀ path i v, op ≠ .store path x i v) :
-    GCoupled ({ S with a := (S.a.step op).1 } : GSys) := by
+    GCore ({ S with a := (S.a.step op).1 } : GSys) := by
   cases hal : S.a.alive with
   | false =>
     rw [step_dead hal]; exact hc
@@ -708,8 +794,8 @@ theorem step_dropArena_cases (a : Arena) (halive : a.alive = true) :
 /-- **Any collector-model op followed by `sync`.**  Sets of this arena whose object the op
 destructed are destroyed; every other alive set of this arena still has its object, with the same
 slot list — whatever the op did to colours, and whether or not the object is reachable. -/
-theorem GCoupled.gc {S : GSys} (hc : GCoupled S) {op : Op} (hal : S.allowed op = true) :
-    GCoupled (({ S with a := (S.a.step op).1 } : GSys).sync) := by
+theorem GCore.gc {S : GSys} (hc : GCore S) {op : Op} (hal : S.allowed op = true) :
+    GCore (({ S with a := (S.a.step op).1 } : GSys).sync) := by
   generalize hS1 : ({ S with a := (S.a.step op).1 } : GSys) = S1
   have a1 : S1.a = (S.a.step op).1 := by rw [← hS1]
   have l1 : S1.loc = S.loc := by rw [← hS1]
@@ -786,8 +872,8 @@ theorem GCoupled.gc {S : GSys} (hc : GCoupled S) {op : Op} (hal : S.allowed op =
     rw [e1] at hl hl'
     exact hc.distinct s s' x rs rs' hl hl' (back s rs hs) (back s' rs' hs')
 
-theorem GCoupled.newSet {S : GSys} (hc : GCoupled S) (hal : S.a.alive = true) (hcb : S.a.cb ≠ none) :
-    GCoupled (({ S with a := (S.a.step (.alloc true [])).1,
+theorem GCore.newSet {S : GSys} (hc : GCore S) (hal : S.a.alive = true) (hcb : S.a.cb ≠ none) :
+    GCore (({ S with a := (S.a.step (.alloc true [])).1,
                         loc := S.loc ++ [some S.a.ctx.heap.fresh] } : GSys).doD .newSet) := by
   have hinv := hc.inv hal
   have e1 := step_alloc_empty hal hcb 0
@@ -858,18 +944,18 @@ theorem GCoupled.newSet {S : GSys} (hc : GCoupled S) (hal : S.a.alive = true) (h
       · exact absurd hx (notFresh s' rs' hlt' hl0' hs')
       · rw [he, he']
 
-theorem GCoupled.stash {S : GSys} (hc : GCoupled S) {s x r idx : Nat} {rs : RootSet} {sl : Slots}
+theorem GCore.stash {S : GSys} (hc : GCore S) {s x r idx : Nat} {rs : RootSet} {sl : Slots}
     (hl : S.loc[s]? = some (some x)) (hls : S.d.liveSet s = some rs)
     (ha : rs.slots.add r = .ok (sl, idx)) (hcb : S.a.cb ≠ none)
     (hhx : S.a.holds (.strong x) = true) (hhr : S.a.holds (.strong r) = true) :
-    GCoupled (({ S with a := stashArena S.a x r idx } : GSys).doD (.stash s r)) := by
+    GCore (({ S with a := stashArena S.a x r idx } : GSys).doD (.stash s r)) := by
   obtain ⟨hal, hx⟩ := hc.sets s x rs hl hls
   have hinv := hc.inv hal
   obtain ⟨hsets, hralive⟩ := DynRoots.liveSet_eq_some.1 hls
   have hcases := add_cases ha
   have hidx : idx ≤ (rs.slots.slots.map img).length := by
     rcases hcases with ⟨h, _⟩ | ⟨h, _⟩ <;> simp <;> omega
-  obtain ⟨inv', x', keep', _, _, _, _⟩ := stashArena_spec hinv hcb hx hhx hhr hidx
+  obtain ⟨inv', x', keep', _, _, _, _, _⟩ := stashArena_spec hinv hcb hx hhx hhr hidx
   have hnext := next_stash_eq hls ha
   have hmirror : sl.slots.map img =
       (if idx < (rs.slots.slots.map img).length then rs.slots.slots.map img
@@ -926,10 +1012,10 @@ theorem GCoupled.stash {S : GSys} (hc : GCoupled S) {s x r idx : Nat} {rs : Root
     obtain ⟨q2, h2⟩ := old s2 r2 hs2
     exact hc.distinct s1 s2 y q1 q2 hl1 hl2 h1 h2
 
-theorem GCoupled.dropVacating {S : GSys} (hc : GCoupled S) {h : Handle} {x r : Nat} {rs : RootSet}
+theorem GCore.dropVacating {S : GSys} (hc : GCore S) {h : Handle} {x r : Nat} {rs : RootSet}
     (hm : h ∈ S.d.handles) (hl : S.loc[h.set]? = some (some x)) (hls : S.d.liveSet h.set = some rs)
     (hv : rs.slots.slots[h.index]? = some (.occupied r 0)) :
-    GCoupled (({ S with a := clearArena S.a x h.index } : GSys).doD (.dropHandle h)) := by
+    GCore (({ S with a := clearArena S.a x h.index } : GSys).doD (.dropHandle h)) := by
   obtain ⟨hal, hx⟩ := hc.sets h.set x rs hl hls
   have hinv := hc.inv hal
   obtain ⟨inv', x', keep'⟩ := clearArena_spec (i := h.index) hinv hx
@@ -980,9 +1066,9 @@ theorem GCoupled.dropVacating {S : GSys} (hc : GCoupled S) {h : Handle} {x r : N
     obtain ⟨q2, h2, _⟩ := back s2 r2 hs2
     exact hc.distinct s1 s2 y q1 q2 hl1 hl2 h1 h2
 
-theorem GCoupled.fetchLike {S : GSys} (hc : GCoupled S) (s : Nat) (h : Handle) (dop : DynRoots.Op)
-    (hdop : DynRoots.next S.d dop = S.d) : GCoupled (S.fetchLike s h dop) := by
-  have same : ∀ {S' : GSys}, GCoupled S' → S'.d = S.d → GCoupled (S'.doD dop) := by
+theorem GCore.fetchLike {S : GSys} (hc : GCore S) (s : Nat) (h : Handle) (dop : DynRoots.Op)
+    (hdop : DynRoots.next S.d dop = S.d) : GCore (S.fetchLike s h dop) := by
+  have same : ∀ {S' : GSys}, GCore S' → S'.d = S.d → GCore (S'.doD dop) := by
     intro S' hc' hd
     apply hc'.doD_same
     rw [hd, hdop]; exact SameTables.refl _
@@ -994,8 +1080,8 @@ theorem GCoupled.fetchLike {S : GSys} (hc : GCoupled S) (s : Nat) (h : Handle) (
   · exact same hc rfl
 
 /-- Environment: a set of another arena is created. -/
-theorem GCoupled.envNewSet {S : GSys} (hc : GCoupled S) :
-    GCoupled (({ S with loc := S.loc ++ [none] } : GSys).doD .newSet) := by
+theorem GCore.envNewSet {S : GSys} (hc : GCore S) :
+    GCore (({ S with loc := S.loc ++ [none] } : GSys).doD .newSet) := by
   have hnext := next_newSet S.d
   have locOld : ∀ (s x : Nat), (S.loc ++ [none])[s]? = some (some x) →
       s < S.loc.length ∧ S.loc[s]? = some (some x) := by
@@ -1024,10 +1110,10 @@ theorem GCoupled.envNewSet {S : GSys} (hc : GCoupled S) :
       (lsOld s' rs' (by rw [← hc.len]; exact hlt') hs')
 
 /-- Environment: a DynRoots op that only concerns a set `t` of another arena. -/
-theorem GCoupled.env {S : GSys} (hc : GCoupled S) (op : DynRoots.Op) (t : Nat)
+theorem GCore.env {S : GSys} (hc : GCore S) (op : DynRoots.Op) (t : Nat)
     (hforeign : S.loc[t]? = some none)
     (hlen : (DynRoots.next S.d op).sets.length = S.d.sets.length)
-    (hother : ∀ s, s ≠ t → (DynRoots.next S.d op).sets[s]? = S.d.sets[s]?) : GCoupled (S.doD op) := by
+    (hother : ∀ s, s ≠ t → (DynRoots.next S.d op).sets[s]? = S.d.sets[s]?) : GCore (S.doD op) := by
   have back : ∀ (s x : Nat) (rs : RootSet), S.loc[s]? = some (some x) →
       (DynRoots.next S.d op).liveSet s = some rs → S.d.liveSet s = some rs := by
     intro s x rs hl h
@@ -1040,7 +1126,7 @@ theorem GCoupled.env {S : GSys} (hc : GCoupled S) (op : DynRoots.Op) (t : Nat)
     exact hc.distinct s s' x rs rs' hl hl' (back s x rs hl hs) (back s' x rs' hl' hs')
 
 /-- **Every operation of the general coupled system preserves the coupling relation.** -/
-theorem GCoupled.step {S : GSys} (hc : GCoupled S) (op : GOp) : GCoupled (S.step op) := by
+theorem GCore.step {S : GSys} (hc : GCore S) (op : GOp) : GCore (S.step op) := by
   cases op with
   | newSet =>
     simp only [GSys.step]
@@ -1067,7 +1153,7 @@ theorem GCoupled.step {S : GSys} (hc : GCoupled S) (op : GOp) : GCoupled (S.step
     simp only [GSys.step]
     split
     · rename_i hm
-      have nonvac : ∀ (hnv : ¬ Vacates S.d h), GCoupled (S.doD (.dropHandle h)) :=
+      have nonvac : ∀ (hnv : ¬ Vacates S.d h), GCore (S.doD (.dropHandle h)) :=
         fun hnv => hc.doD_same _ (next_drop_same _ _ hnv)
       split
       · rename_i x rs hl hls
@@ -1128,7 +1214,7 @@ theorem GCoupled.step {S : GSys} (hc : GCoupled S) (op : GOp) : GCoupled (S.step
     · exact hc
 
 /-- The coupling relation holds after every operation sequence of the general coupled system. -/
-theorem GCoupled.run (ops : List GOp) : ∀ {S : GSys}, GCoupled S → GCoupled (S.run ops) := by
+theorem GCore.run (ops : List GOp) : ∀ {S : GSys}, GCore S → GCore (S.run ops) := by
   induction ops with
   | nil => intro S hc; exact hc
   | cons op ops ih => intro S hc; exact ih (hc.step op)
@@ -1158,7 +1244,7 @@ def gfc : GOp := .gc (.collect .finishCycle .drop none none)
 theorem GSys.sync_a (S : GSys) : S.sync.a = S.a := by
   unfold GSys.sync; exact (S.doDs_spec _).1
 
-theorem GCoupled.finishCycle {S : GSys} (hc : GCoupled S) (hal : S.a.alive = true)
+theorem GCore.finishCycle {S : GSys} (hc : GCore S) (hal : S.a.alive = true)
     (hcb : S.a.cb = none) :
     (S.step gfc).a.ctx = (S.a.ctx.doCollection S.a.root .stop .finishCycle none).1 ∧
     (S.step gfc).a.root = S.a.root ∧ (S.step gfc).a.cb = none ∧ (S.step gfc).a.alive = true := by
@@ -1169,5 +1255,527 @@ theorem GCoupled.finishCycle {S : GSys} (hc : GCoupled S) (hal : S.a.alive = tru
   show (S.a.step _).1.ctx = _ ∧ (S.a.step _).1.root = _ ∧ (S.a.step _).1.cb = _ ∧ (S.a.step _).1.alive = _
   rw [step_finishCycle (hc.inv hal) hcb]
   exact ⟨rfl, rfl, hcb, hal⟩
+
+
+/-! ## 6. The full relation: a set of the arena is alive in the slot-table state **iff** its object is
+allocated and undestructed -/
+
+/-- Replacing one entry of `sets` keeps set `s` alive if the new entry (when it is `s`'s) is alive. -/
+theorem liveSet_of_sets_set {d d' : State} {t s : Nat} {r rs : RootSet}
+    (hs : d'.sets = d.sets.set t r) (hl : d.liveSet s = some rs) (hr : t = s → r.alive = true) :
+    ∃ rs', d'.liveSet s = some rs' := by
+  obtain ⟨h1, h2⟩ := DynRoots.liveSet_eq_some.1 hl
+  by_cases he : t = s
+  · subst he
+    refine ⟨r, DynRoots.liveSet_eq_some.2 ⟨?_, hr rfl⟩⟩
+    rw [hs, List.getElem?_set]
+    simp [(List.getElem?_eq_some_iff.1 h1).1]
+  · refine ⟨rs, ?_⟩
+    have : d'.sets[s]? = d.sets[s]? := by rw [hs]; exact List.getElem?_set_ne he
+    rw [liveSet_congr this]; exact hl
+
+/-- No DynRoots op other than `destroySet s` ends the life of set `s`. -/
+theorem next_alive (d : State) (op : DynRoots.Op) (s : Nat) (rs : RootSet)
+    (hne : op ≠ .destroySet s) (hl : d.liveSet s = some rs) :
+    ∃ rs', (DynRoots.next d op).liveSet s = some rs' := by
+  have same : ∀ d' : State, d'.sets = d.sets → ∃ rs', d'.liveSet s = some rs' := fun d' h =>
+    ⟨rs, by rw [liveSet_congr (d := d) (d' := d') (by rw [h])]; exact hl⟩
+  cases op with
+  | newSet =>
+    rw [next_newSet]
+    obtain ⟨h1, _⟩ := DynRoots.liveSet_eq_some.1 hl
+    have hlt := (List.getElem?_eq_some_iff.1 h1).1
+    refine ⟨rs, ?_⟩
+    have : (d.sets ++ [⟨true, Slots.new⟩])[s]? = d.sets[s]? := by
+      rw [List.getElem?_append]; simp [hlt]
+    rw [liveSet_congr (d := d) (d' := { d with sets := d.sets ++ [⟨true, Slots.new⟩] }) this]
+    exact hl
+  | stash t p =>
+    cases ht : d.liveSet t with
+    | none => exact same _ (by simp [DynRoots.next, DynRoots.step, ht])
+    | some rt =>
+      cases ha : rt.slots.add p with
+      | error f => exact same _ (by simp [DynRoots.next, DynRoots.step, ht, ha])
+      | ok res =>
+        obtain ⟨sl, idx⟩ := res
+        rw [next_stash_eq ht ha]
+        exact liveSet_of_sets_set (d := d) rfl hl (fun _ => (DynRoots.liveSet_eq_some.1 ht).2)
+  | clone h =>
+    unfold DynRoots.next
+    by_cases hm : h ∈ d.handles
+    · cases ht : d.liveSet h.set with
+      | none => simp only [DynRoots.step, hm, if_true, ht]; exact same _ rfl
+      | some rt =>
+        cases hi : rt.slots.inc h.index with
+        | error f => simp only [DynRoots.step, hm, if_true, ht, hi]; exact ⟨rs, hl⟩
+        | ok sl =>
+          simp only [DynRoots.step, hm, if_true, ht, hi, DynRoots.State.withSlots]
+          exact liveSet_of_sets_set (d := d) rfl hl (fun _ => (DynRoots.liveSet_eq_some.1 ht).2)
+    · simp only [DynRoots.step, hm, if_false]; exact ⟨rs, hl⟩
+  | dropHandle h =>
+    unfold DynRoots.next
+    by_cases hm : h ∈ d.handles
+    · cases ht : d.liveSet h.set with
+      | none => simp only [DynRoots.step, hm, if_true, ht]; exact same _ rfl
+      | some rt =>
+        cases hi : rt.slots.dec h.index with
+        | error f => simp only [DynRoots.step, hm, if_true, ht, hi]; exact ⟨rs, hl⟩
+        | ok sl =>
+          simp only [DynRoots.step, hm, if_true, ht, hi, DynRoots.State.withSlots]
+          exact liveSet_of_sets_set (d := d) rfl hl (fun _ => (DynRoots.liveSet_eq_some.1 ht).2)
+    · simp only [DynRoots.step, hm, if_false]; exact ⟨rs, hl⟩
+  | fetch t h => rw [DynRoots.next_fetch]; exact ⟨rs, hl⟩
+  | tryFetch t h => rw [DynRoots.next_tryFetch]; exact ⟨rs, hl⟩
+  | contains t h => rw [DynRoots.next_contains]; exact ⟨rs, hl⟩
+  | destroySet t =>
+    have : s ≠ t := fun e => hne (by rw [e])
+    exact ⟨rs, by rw [liveSet_congr (next_destroy_other d t s this)]; exact hl⟩
+
+theorem objLive_iff {a : Arena} {x : Nat} :
+    objLive a x = true ↔ a.alive = true ∧ ∃ o, a.ctx.heap.get x = some o ∧ o.live = true := by
+  unfold objLive
+  cases h : a.ctx.heap.get x <;> simp
+
+/-- **The coupling relation of the general system.**  `GCore` (the slot-table side is a run of the
+DynRoots model; `Inv` while the arena exists; a set of the arena that is alive in the slot-table
+state has an allocated, undestructed set object whose slot list is exactly the image of its table),
+and conversely (`live`): **a set of the arena whose object is allocated and undestructed is alive in
+the slot-table state** — `sync` destroys only sets whose object is gone, and a destructed or
+released id never holds an undestructed object again (`bound`, `Mono`).  `deadEmpty`: a dropped
+arena has no root and no held pointer, so nothing is accessible in it. -/
+structure GCoupled (S : GSys) : Prop extends GCore S where
+  bound : S.a.alive = true → ∀ (s x : Nat), S.loc[s]? = some (some x) → x < S.a.ctx.heap.size
+  live : ∀ (s x : Nat), S.loc[s]? = some (some x) → objLive S.a x = true →
+    ∃ rs, S.d.liveSet s = some rs
+  deadEmpty : S.a.alive = false → S.a.root = [] ∧ S.a.temps = []
+
+theorem GCoupled.init (n : Nat) : GCoupled (GSys.init n) :=
+  { toGCore := GCore.init n
+    bound := by simp [GSys.init]
+    live := by simp [GSys.init]
+    deadEmpty := by intro h; simp [GSys.init, Arena.new] at h }
+
+/-- The three extra clauses, for a step that keeps `loc`, moves the arena monotonically (or not at
+all) and ends the life of no set of the arena. -/
+theorem GCoupled.extras {S S' : GSys} (hc : GCoupled S) (core : GCore S') (hloc : S'.loc = S.loc)
+    (harena : S'.a = S.a ∨ (S.a.alive = true ∧ S'.a.alive = true ∧ Mono S.a.ctx S'.a.ctx))
+    (hd : ∀ (s x : Nat) (rs : RootSet), S.loc[s]? = some (some x) → S.d.liveSet s = some rs →
+      ∃ rs', S'.d.liveSet s = some rs') : GCoupled S' := by
+  refine { toGCore := core, bound := ?_, live := ?_, deadEmpty := ?_ }
+  · intro hal s x hl
+    rw [hloc] at hl
+    rcases harena with e | ⟨h1, _, hm⟩
+    · rw [e] at hal ⊢; exact hc.bound hal s x hl
+    · exact Nat.lt_of_lt_of_le (hc.bound h1 s x hl) hm.1
+  · intro s x hl hlive
+    rw [hloc] at hl
+    have hlive0 : objLive S.a x = true := by
+      rcases harena with e | ⟨h1, _, hm⟩
+      · rw [e] at hlive; exact hlive
+      · obtain ⟨_, o', ho', hl'⟩ := objLive_iff.1 hlive
+        obtain ⟨o, ho, hl0⟩ := hm.2 x o' (hc.bound h1 s x hl) ho' hl'
+        exact objLive_iff.2 ⟨h1, o, ho, hl0⟩
+    obtain ⟨rs, hrs⟩ := hc.live s x hl hlive0
+    exact hd s x rs hl hrs
+  · intro hal
+    rcases harena with e | ⟨_, h2, _⟩
+    · rw [e] at hal ⊢; exact hc.deadEmpty hal
+    · rw [h2] at hal; cases hal
+
+theorem GCoupled.doD_keep {S : GSys} (hc : GCoupled S) (op : DynRoots.Op) (core : GCore (S.doD op))
+    (hne : ∀ (s x : Nat), S.loc[s]? = some (some x) → op ≠ .destroySet s) : GCoupled (S.doD op) :=
+  hc.extras core rfl (.inl rfl) (fun s x rs hl hrs => next_alive S.d op s rs (hne s x hl) hrs)
+
+theorem step_dropArena_dead {a : Arena} (h : Inv a) (hd : (a.step .dropArena).1.alive = false) :
+    (a.step .dropArena).1.root = [] ∧ (a.step .dropArena).1.temps = [] := by
+  rw [step_alive_eq h.alive] at hd ⊢
+  simp only [Arena.stepBody] at hd ⊢
+  split at hd
+  · rw [Arena.bad] at hd; simp only at hd; rw [h.alive] at hd; cases hd
+  · rename_i hcb
+    split
+    · rename_i hcb'; exact absurd hcb' hcb
+    · have : a.cb = none := by cases hx : a.cb <;> simp_all
+      exact ⟨rfl, h.cbTemps this⟩
+
+/-- **Every operation of the general coupled system preserves the coupling relation.** -/
+theorem GCoupled.step {S : GSys} (hc : GCoupled S) (op : GOp) : GCoupled (S.step op) := by
+  have core : GCore (S.step op) := hc.toGCore.step op
+  cases op with
+  | newSet =>
+    simp only [GSys.step] at core ⊢
+    split
+    · rename_i hg
+      rw [if_pos hg] at core
+      simp only [Bool.and_eq_true] at hg
+      have hal := hg.1
+      have hcb : S.a.cb ≠ none := by intro e; rw [e] at hg; simp at hg
+      have hinv := hc.inv hal
+      have hm : Mono S.a.ctx (S.a.step (.alloc true [])).1.ctx := step_mono hinv _ (by intro e; cases e)
+      have hal' : (S.a.step (.alloc true [])).1.alive = true := by
+        rw [(step_fr hinv (.alloc true []) (by intro e; cases e)).1]; exact hal
+      have e1 : (S.a.step (.alloc true [])).1 =
+          ({ S.a with marked := false, ctx := (S.a.ctx.link (emptySetObj 0)).1 } : Arena).push
+            (.strong S.a.ctx.heap.fresh) := step_alloc_empty hal hcb 0
+      have hctx : (S.a.step (.alloc true [])).1.ctx = (S.a.ctx.link (emptySetObj 0)).1 := by
+        rw [e1]; exact (Arena.push_spec _ _).1
+      have hsize : S.a.ctx.heap.fresh < (S.a.step (.alloc true [])).1.ctx.heap.size := by
+        rw [hctx]
+        have : (S.a.ctx.link (emptySetObj 0)).1.heap.get S.a.ctx.heap.fresh = some (emptySetObj 0) := by
+          simp [Ctx.link]
+        exact Heap.lt_size_of_get _ _ _ this
+      refine { toGCore := core, bound := ?_, live := ?_, deadEmpty := ?_ }
+      · intro _ s x hl
+        change (S.loc ++ [some S.a.ctx.heap.fresh])[s]? = some (some x) at hl
+        show x < (S.a.step (.alloc true [])).1.ctx.heap.size
+        rcases getElem?_append_one hl with ⟨_, h0⟩ | ⟨_, h2⟩
+        · exact Nat.lt_of_lt_of_le (hc.bound hal s x h0) hm.1
+        · cases h2; exact hsize
+      · intro s x hl hlive
+        change (S.loc ++ [some S.a.ctx.heap.fresh])[s]? = some (some x) at hl
+        change objLive (S.a.step (.alloc true [])).1 x = true at hlive
+        show ∃ rs, (DynRoots.next S.d .newSet).liveSet s = some rs
+        rcases getElem?_append_one hl with ⟨_, h0⟩ | ⟨he, _⟩
+        · obtain ⟨_, o', ho', hl'⟩ := objLive_iff.1 hlive
+          obtain ⟨o, ho, hl0⟩ := hm.2 x o' (hc.bound hal s x h0) ho' hl'
+          obtain ⟨rs, hrs⟩ := hc.live s x h0 (objLive_iff.2 ⟨hal, o, ho, hl0⟩)
+          exact next_alive S.d .newSet s rs (by intro e; cases e) hrs
+        · refine ⟨⟨true, Slots.new⟩, ?_⟩
+          rw [next_newSet]
+          apply DynRoots.liveSet_eq_some.2
+          refine ⟨?_, rfl⟩
+          show (S.d.sets ++ [_])[s]? = _
+          rw [he, hc.len]; simp
+      · intro hd
+        change (S.a.step (.alloc true [])).1.alive = false at hd
+        rw [hal'] at hd; cases hd
+    · exact hc
+  | stash s r =>
+    simp only [GSys.step] at core ⊢
+    split
+    · rename_i x rs hl hls
+      simp only [hl, hls] at core
+      split
+      · rename_i sl idx ha
+        simp only [ha] at core
+        split
+        · rename_i hg
+          rw [if_pos hg] at core
+          simp only [Bool.and_eq_true] at hg
+          obtain ⟨hal, hx⟩ := hc.sets s x rs hl hls
+          have hcb : S.a.cb ≠ none := by intro e; rw [e] at hg; simp at hg
+          have hidx : idx ≤ (rs.slots.slots.map img).length := by
+            rcases add_cases ha with ⟨h, _⟩ | ⟨h, _⟩ <;> simp <;> omega
+          obtain ⟨inv', _, _, _, _, _, _, hm⟩ := stashArena_spec (hc.inv hal) hcb hx hg.1.2 hg.2 hidx
+          exact hc.extras core rfl (.inr ⟨hal, inv'.alive, hm⟩)
+            (fun s' x' rs' _ hrs => next_alive S.d _ s' rs' (by intro e; cases e) hrs)
+        · exact hc
+      · exact hc
+    · exact hc
+  | clone h => exact hc.doD_keep _ core (fun _ _ _ e => by cases e)
+  | dropHandle h =>
+    simp only [GSys.step] at core ⊢
+    split
+    · rename_i hm
+      rw [if_pos hm] at core
+      split
+      · rename_i x rs hl hls
+        simp only [hl, hls] at core
+        split
+        · rename_i r hv
+          simp only [hv] at core
+          obtain ⟨hal, _⟩ := hc.sets h.set x rs hl hls
+          exact hc.extras core rfl
+            (.inr ⟨hal, hal, mono_of_quiet (quiet_setSlot _ _ _ _)⟩)
+            (fun s' x' rs' _ hrs => next_alive S.d _ s' rs' (by intro e; cases e) hrs)
+        · rename_i hnv
+          have : (match rs.slots.slots[h.index]? with
+              | some (.occupied _ 0) =>
+                ({ S with a := clearArena S.a x h.index } : GSys).doD (.dropHandle h)
+              | _ => S.doD (.dropHandle h)) = S.doD (.dropHandle h) := by
+            split
+            · rename_i r hv; exact absurd hv (hnv r)
+            · rfl
+          rw [this] at core
+          exact hc.doD_keep _ core (fun _ _ _ e => by cases e)
+      · rename_i hnone
+        have : (match S.loc[h.set]?, S.d.liveSet h.set with
+            | some (some x), some rs =>
+              match rs.slots.slots[h.index]? with
+              | some (.occupied _ 0) =>
+                ({ S with a := clearArena S.a x h.index } : GSys).doD (.dropHandle h)
+              | _ => S.doD (.dropHandle h)
+            | _, _ => S.doD (.dropHandle h)) = S.doD (.dropHandle h) := by
+          split
+          · rename_i x rs hl hls; exact absurd hls (fun e => hnone x rs hl e)
+          · rfl
+        rw [this] at core
+        exact hc.doD_keep _ core (fun _ _ _ e => by cases e)
+    · exact hc
+  | fetch s h =>
+    show GCoupled (S.fetchLike s h (.fetch s h))
+    change GCore (S.fetchLike s h (.fetch s h)) at core
+    unfold GSys.fetchLike at core ⊢
+    split
+    · rename_i x hl
+      simp only [hl] at core
+      split
+      · rename_i hg
+        rw [if_pos hg] at core
+        simp only [Bool.and_eq_true] at hg
+        have hal : S.a.alive = true := hg.1.1.1.1.1
+        have hinv := hc.inv hal
+        refine hc.extras core rfl (.inr ⟨hal, ?_, step_mono hinv _ (by intro e; cases e)⟩)
+          (fun s' x' rs' _ hrs => next_alive S.d _ s' rs' (by intro e; cases e) hrs)
+        show (S.a.step (.read x h.index)).1.alive = true
+        rw [(step_fr hinv (.read x h.index) (by intro e; cases e)).1]; exact hal
+      · rename_i hg
+        rw [if_neg hg] at core
+        exact hc.doD_keep _ core (fun _ _ _ e => by cases e)
+    · rename_i hnone
+      have : (match S.loc[s]? with
+          | some (some x) =>
+            if S.a.alive && S.a.cb.isSome && S.a.holds (.strong x) && decide (h ∈ S.d.handles)
+                && (S.d.liveSet s).isSome && containsB s h then
+              ({ S with a := (S.a.step (.read x h.index)).1 } : GSys).doD (.fetch s h)
+            else S.doD (.fetch s h)
+          | _ => S.doD (.fetch s h)) = S.doD (.fetch s h) := by
+        split
+        · rename_i x hl; exact absurd hl (hnone x)
+        · rfl
+      rw [this] at core
+      exact hc.doD_keep _ core (fun _ _ _ e => by cases e)
+  | tryFetch s h =>
+    show GCoupled (S.fetchLike s h (.tryFetch s h))
+    change GCore (S.fetchLike s h (.tryFetch s h)) at core
+    unfold GSys.fetchLike at core ⊢
+    split
+    · rename_i x hl
+      simp only [hl] at core
+      split
+      · rename_i hg
+        rw [if_pos hg] at core
+        simp only [Bool.and_eq_true] at hg
+        have hal : S.a.alive = true := hg.1.1.1.1.1
+        have hinv := hc.inv hal
+        refine hc.extras core rfl (.inr ⟨hal, ?_, step_mono hinv _ (by intro e; cases e)⟩)
+          (fun s' x' rs' _ hrs => next_alive S.d _ s' rs' (by intro e; cases e) hrs)
+        show (S.a.step (.read x h.index)).1.alive = true
+        rw [(step_fr hinv (.read x h.index) (by intro e; cases e)).1]; exact hal
+      · rename_i hg
+        rw [if_neg hg] at core
+        exact hc.doD_keep _ core (fun _ _ _ e => by cases e)
+    · rename_i hnone
+      have : (match S.loc[s]? with
+          | some (some x) =>
+            if S.a.alive && S.a.cb.isSome && S.a.holds (.strong x) && decide (h ∈ S.d.handles)
+                && (S.d.liveSet s).isSome && containsB s h then
+              ({ S with a := (S.a.step (.read x h.index)).1 } : GSys).doD (.tryFetch s h)
+            else S.doD (.tryFetch s h)
+          | _ => S.doD (.tryFetch s h)) = S.doD (.tryFetch s h) := by
+        split
+        · rename_i x hl; exact absurd hl (hnone x)
+        · rfl
+      rw [this] at core
+      exact hc.doD_keep _ core (fun _ _ _ e => by cases e)
+  | contains s h => exact hc.doD_keep _ core (fun _ _ _ e => by cases e)
+  | gc op =>
+    simp only [GSys.step] at core ⊢
+    split
+    · rename_i hal
+      rw [if_pos hal] at core
+      generalize hS1 : ({ S with a := (S.a.step op).1 } : GSys) = S1 at core
+      have a1 : S1.a = (S.a.step op).1 := by rw [← hS1]
+      have l1 : S1.loc = S.loc := by rw [← hS1]
+      have d1 : S1.d = S.d := by rw [← hS1]
+      obtain ⟨s1, s2, s3, _⟩ := S1.doDs_spec (((List.range S1.loc.length).filter S1.gone).map .destroySet)
+      obtain ⟨_, _, _, r4, _⟩ := run_destroy' ((List.range S1.loc.length).filter S1.gone) S1.d
+      have sa : S1.sync.a = (S.a.step op).1 := by unfold GSys.sync; rw [s1, a1]
+      have sl : S1.sync.loc = S.loc := by unfold GSys.sync; rw [s2, l1]
+      -- how the arena moved
+      have hmove : (S.a.step op).1 = S.a ∨
+          (S.a.alive = true ∧ (S.a.step op).1.alive = false ∧ (S.a.step op).1.root = [] ∧
+            (S.a.step op).1.temps = []) ∨
+          (S.a.alive = true ∧ (S.a.step op).1.alive = true ∧ Mono S.a.ctx (S.a.step op).1.ctx) := by
+        cases hal0 : S.a.alive with
+        | false => exact .inl (step_dead hal0 op)
+        | true =>
+          have hinv := hc.inv hal0
+          by_cases hda : op = .dropArena
+          · subst hda
+            rcases step_dropArena_cases S.a hal0 with h | ⟨h1, h2⟩
+            · exact .inr (.inl ⟨rfl, h, step_dropArena_dead hinv h⟩)
+            · exact .inr (.inr ⟨rfl, h1, by rw [h2]; exact Mono.refl _⟩)
+          · exact .inr (.inr ⟨rfl, by rw [(step_fr hinv op hda).1]; exact hal0, step_mono hinv op hda⟩)
+      refine { toGCore := core, bound := ?_, live := ?_, deadEmpty := ?_ }
+      · intro hal' s x hl
+        rw [sa] at hal' ⊢; rw [sl] at hl
+        rcases hmove with e | ⟨_, h2, _⟩ | ⟨h1, _, hm⟩
+        · rw [e] at hal' ⊢; exact hc.bound hal' s x hl
+        · rw [h2] at hal'; cases hal'
+        · exact Nat.lt_of_lt_of_le (hc.bound h1 s x hl) hm.1
+      · intro s x hl hlive
+        rw [sa] at hlive; rw [sl] at hl
+        have hlive0 : objLive S.a x = true := by
+          rcases hmove with e | ⟨_, h2, _⟩ | ⟨h1, _, hm⟩
+          · rw [e] at hlive; exact hlive
+          · rw [(objLive_iff.1 hlive).1] at h2; cases h2
+          · obtain ⟨_, o', ho', hl'⟩ := objLive_iff.1 hlive
+            obtain ⟨o, ho, hl0⟩ := hm.2 x o' (hc.bound h1 s x hl) ho' hl'
+            exact objLive_iff.2 ⟨h1, o, ho, hl0⟩
+        obtain ⟨rs, hrs⟩ := hc.live s x hl hlive0
+        -- `s` is not `gone`, so `sync` leaves it alone
+        have hng : s ∉ (List.range S1.loc.length).filter S1.gone := by
+          intro hmem
+          have hg := (List.mem_filter.1 hmem).2
+          unfold GSys.gone at hg
+          rw [l1, hl, a1] at hg
+          simp only [hlive] at hg
+          cases hg
+        refine ⟨rs, ?_⟩
+        unfold GSys.sync
+        rw [s3, r4 s hng, d1]; exact hrs
+      · intro hd
+        rw [sa] at hd ⊢
+        rcases hmove with e | ⟨_, _, h3, h4⟩ | ⟨_, h2, _⟩
+        · rw [e] at hd ⊢; exact hc.deadEmpty hd
+        · exact ⟨h3, h4⟩
+        · rw [h2] at hd; cases hd
+    · exact hc
+  | envNewSet =>
+    refine { toGCore := core, bound := ?_, live := ?_, deadEmpty := hc.deadEmpty }
+    · intro hal s x hl
+      change (S.loc ++ [none])[s]? = some (some x) at hl
+      rcases getElem?_append_one hl with ⟨_, h0⟩ | ⟨_, h2⟩
+      · exact hc.bound hal s x h0
+      · cases h2
+    · intro s x hl hlive
+      change (S.loc ++ [none])[s]? = some (some x) at hl
+      rcases getElem?_append_one hl with ⟨_, h0⟩ | ⟨_, h2⟩
+      · obtain ⟨rs, hrs⟩ := hc.live s x h0 hlive
+        exact next_alive S.d .newSet s rs (by intro e; cases e) hrs
+      · cases h2
+  | envStash s r =>
+    simp only [GSys.step] at core ⊢
+    split
+    · rename_i hf
+      rw [if_pos hf] at core
+      exact hc.doD_keep _ core (fun _ _ _ e => by cases e)
+    · exact hc
+  | envDestroy s =>
+    simp only [GSys.step] at core ⊢
+    split
+    · rename_i hf
+      rw [if_pos hf] at core
+      refine hc.doD_keep _ core ?_
+      intro s' x hl e
+      cases e
+      rw [hf] at hl; cases hl
+    · exact hc
+
+/-- The coupling relation holds after every operation sequence of the general coupled system. -/
+theorem GCoupled.run (ops : List GOp) : ∀ {S : GSys}, GCoupled S → GCoupled (S.run ops) := by
+  induction ops with
+  | nil => intro S hc; exact hc
+  | cons op ops ih => intro S hc; exact ih (hc.step op)
+
+/-- **A set of the arena is alive in the slot-table state iff its object is allocated and
+undestructed** (and the arena exists). -/
+theorem GCoupled.alive_iff {S : GSys} (hc : GCoupled S) {s x : Nat} (hl : S.loc[s]? = some (some x)) :
+    (∃ rs, S.d.liveSet s = some rs) ↔ objLive S.a x = true := by
+  constructor
+  · rintro ⟨rs, hrs⟩
+    obtain ⟨hal, o, ho, hlive, _⟩ := hc.sets s x rs hl hrs
+    exact objLive_iff.2 ⟨hal, o, ho, hlive⟩
+  · exact hc.live s x hl
+
+/-- A set object the client can reach belongs to a set that is alive in the slot-table state (and the
+arena exists): accessible ⇒ allocated and undestructed (`Inv`) ⇒ not destroyed (`live`). -/
+theorem GCoupled.alive_of_accessible {S : GSys} (hc : GCoupled S) {s x : Nat}
+    (hl : S.loc[s]? = some (some x)) (hacc : Accessible S.a x) :
+    S.a.alive = true ∧ ∃ rs, S.d.liveSet s = some rs := by
+  have hal : S.a.alive = true := by
+    cases h : S.a.alive with
+    | true => rfl
+    | false =>
+      exfalso
+      obtain ⟨hr, ht⟩ := hc.deadEmpty h
+      have : ∀ j, Accessible S.a j → False := by
+        intro j hj
+        induction hj with
+        | root t h1 => rw [hr] at h1; cases h1
+        | temp t h1 => rw [ht] at h1; cases h1
+        | edge _ _ _ _ ih => exact ih
+      exact this x hacc
+  obtain ⟨o, ho, hlive, _⟩ := (hc.inv hal).safe_of_accessible hacc
+  exact ⟨hal, hc.live s x hl (objLive_iff.2 ⟨hal, o, ho, hlive⟩)⟩
+
+theorem GCoupled.finishCycle {S : GSys} (hc : GCoupled S) (hal : S.a.alive = true)
+    (hcb : S.a.cb = none) :
+    (S.step gfc).a.ctx = (S.a.ctx.doCollection S.a.root .stop .finishCycle none).1 ∧
+    (S.step gfc).a.root = S.a.root ∧ (S.step gfc).a.cb = none ∧ (S.step gfc).a.alive = true :=
+  hc.toGCore.finishCycle hal hcb
+
+/-! ## 7. A handle dropped by a destructor during a sweep step -/
+
+/-- The two contexts agree on every field and on every heap cell. -/
+structure CtxEq (c c' : Ctx) : Prop where
+  phase : c.phase = c'.phase
+  heap : ∀ j, c.heap.get j = c'.heap.get j
+  pre : c.pre = c'.pre
+  rest : c.rest = c'.rest
+  rnt : c.rootNeedsTrace = c'.rootNeedsTrace
+  gray : c.gray = c'.gray
+  grayAgain : c.grayAgain = c'.grayAgain
+  metrics : c.metrics = c'.metrics
+  log : c.log = c'.log
+  steps : c.steps = c'.steps
+  err : c.err = c'.err
+
+/-- **Clearing a slot of `x` commutes with a sweep step whose cursor is not at `x`**: the two orders
+give contexts that agree on every field and every heap cell, and the same control flow.  So a handle
+dropped by the destructor of the object `i0 ≠ x` that `sweep_one` is destructing — the clearing then
+happens in the middle of that `sweep_one` — leaves the state that "`sweepStep`, then `dropHandle`"
+leaves in the general system (split the collection call there into two oracle-driven `collect` ops).
+If the cursor is at `x` itself and `x` is destructed, the set is destroyed (`sync`), its `Rc` is gone
+and the drop clears nothing. -/
+theorem clear_commutes_sweepOne (c : Ctx) (x i : Nat) (o : Obj) (ho : c.heap.get x = some o)
+    (hne : ∀ i0 rest', c.rest = i0 :: rest' → i0 ≠ x) :
+    CtxEq (Arena.setSlot c x i none).sweepOne.1 (Arena.setSlot c.sweepOne.1 x i none) ∧
+    (Arena.setSlot c x i none).sweepOne.2 = c.sweepOne.2 := by
+  rw [setSlot_eq ho]
+  cases hr : c.rest with
+  | nil =>
+    have e1 : c.sweepOne = (c.step 'e', .break) := sweepOne_end hr
+    have e2 : (c.setObj x { o with slots := o.slots.set i none }).sweepOne =
+        ((c.setObj x { o with slots := o.slots.set i none }).step 'e', .break) := sweepOne_end hr
+    rw [e1, e2]
+    refine ⟨?_, rfl⟩
+    rw [setSlot_eq (c := c.step 'e') (o := o) ho]
+    constructor <;> first | rfl | (intro j; rfl)
+  | cons i0 rest' =>
+    have hi0 : i0 ≠ x := hne i0 rest' hr
+    have hi0' : x ≠ i0 := fun e => hi0 e.symm
+    have hx' : c.sweepOne.1.heap.get x = some o := by
+      cases hg : c.heap.get i0 with
+      | none =>
+        have : c.sweepOne.1.heap = c.heap := by unfold Ctx.sweepOne; simp [hr, hg]
+        rw [this]; exact ho
+      | some o0 => rw [(sweepOne_cases hr hg).2.2.1 x hi0']; exact ho
+    rw [setSlot_eq hx']
+    unfold Ctx.sweepOne
+    simp only [hr, Ctx.setObj_rest, Ctx.step_heap, Ctx.setObj_get, hi0, if_false]
+    cases hg : c.heap.get i0 with
+    | none =>
+      simp only
+      refine ⟨?_, trivial⟩
+      constructor <;> (try rfl) <;> (try (intro j)) <;>
+        simp [Ctx.fail, Ctx.step, Ctx.setObj] <;> (cases c.err <;> simp [Heap.get_set])
+    | some o0 =>
+      simp only
+      cases hcol : o0.color <;> cases hlv : o0.live <;> simp only [] <;>
+        (refine ⟨?_, by first | trivial | rfl⟩; constructor <;> (try rfl) <;> (try (intro j)) <;>
+          simp [Ctx.fail, Ctx.step, Ctx.setObj, Ctx.emit, Ctx.withMetrics, Heap.get_set] <;>
+          (try (cases c.err <;> simp [Heap.get_set])) <;> (try split) <;> (try split) <;> simp_all)
 
 end GcArena.DynReach
